@@ -6,6 +6,8 @@ import scipy.stats
 
 from vmon import gen, instr, oracles
 
+from vmon.scale import S
+
 ID = 'C07'
 RULE = ('cases = (family x dimension x leading axes x parameter class) evaluations of the real log_pdf against an '
         'independent closed form / scipy.stats / high-precision value, plus quadrature and Monte-Carlo integrals of '
@@ -22,7 +24,7 @@ LEADS = [[], [1], [3], [2, 3]]
 def plan(tier, seed):
     rng = np.random.default_rng([seed, 107])
     cases = []
-    n = 40 if tier == 'quick' else 400
+    n = S(tier, 40, 400)
     i = 0
     for fam in FAMS:
         for r in range(n if fam != 'bingham' else n // 2):
@@ -41,7 +43,7 @@ def plan(tier, seed):
                               cond=float(10 ** rng.uniform(0, 8)), kappa=float(10 ** rng.uniform(-6, math.log10(500))),
                               cluster=['spread', 'clustered', 'mixed'][int(rng.integers(0, 3))], rs=[seed, 7, i]))
             i += 1
-    m = 8 if tier == 'quick' else 60
+    m = S(tier, 8, 60)
     for fam in ('vmf', 'watson', 'bingham', 'cacg', 'gauss1d', 'ccsg1d'):
         for r in range(m):
             cases.append(dict(lane='integral', fam=fam, D=int(rng.integers(2, 4)) if fam != 'cacg' else int(rng.integers(2, 6)),
@@ -277,6 +279,8 @@ def v_cacg(case, R):
     U = gen.random_unitary(rng, D, lead)
     lam = np.exp(rng.uniform(-math.log(cond), 0, size=(*lead, D)))
     lam[..., 0] = 1.0
+    if rng.uniform() < 0.5:
+        lam = lam * 10 ** rng.uniform(-14, 6, size=(*lead, 1))          # un-normalised covariances (covariance_norm=False) of any scale
     y = gen.cnormal(rng, (*lead, N, D)) * 10 ** rng.uniform(-50, 50, size=(*lead, N, 1))
     try:
         got = ComplexAngularCentralGaussian(covariance_eigenvectors=U, covariance_eigenvalues=lam).log_pdf(y)
